@@ -330,6 +330,9 @@ def run_sharded_(cases, tag, profile="debug", want_model=True, want_impl=True):
 CLEAR = b"\x1b[2J\x1b[H\x1b[3J"
 
 
+_dlog_n = 0
+
+
 def cli_args(opts_s, path):
     upd = "-1"
     for kv in opts_s.split(","):
@@ -364,6 +367,15 @@ def cli_args(opts_s, path):
         elif k == "O":
             a += ["-O", bytes.fromhex(v).decode("utf-8", "replace")]
             have_o = True
+        elif k == "D" and v == "1":
+            # --downlink-log: a fresh file per run (the option has no effect on the table; the model ignores it)
+            global _dlog_n
+            _dlog_n += 1
+            os.makedirs(TMP, exist_ok=True)
+            f = os.path.join(TMP, "dlog-%d-%d.txt" % (os.getpid(), _dlog_n))
+            if os.path.exists(f):
+                os.unlink(f)
+            a += ["-D", f]
     if not have_o:
         a += ["-O", "x"]
     if "-o" not in a:
@@ -507,9 +519,16 @@ def run_tcp_case(parts, profile="debug"):
                 c.sendall(lines[-2] + b"\n")
                 keep.append(c)
                 time.sleep(0.6)
-            elif typ == 2:
-                # complete lines first, then a partial line, then a reset
-                c.sendall(data)
+            elif typ in (2, 7):
+                # complete lines first, then a partial line, then a reset; type 7: the connection has been up for more
+                # than the 5 s retry pause when it is reset
+                if typ == 7:
+                    cut = data.rfind(b"\n") + 1
+                    c.sendall(data[:cut])
+                    time.sleep(5.6)
+                    c.sendall(data[cut:])
+                else:
+                    c.sendall(data)
                 time.sleep(0.4)
                 c.setsockopt(socket.SOL_SOCKET, socket.SO_LINGER, struct.pack("ii", 1, 0))
                 c.close()
@@ -527,6 +546,9 @@ def run_tcp_case(parts, profile="debug"):
             c.close()
         if srv is not None:
             srv.close()
+    for a in args:
+        if isinstance(a, str) and os.path.basename(a).startswith("dlog-") and os.path.exists(a):
+            os.unlink(a)
     frames = out.split(CLEAR)
     keys = []
     if len(frames) > 2:
